@@ -210,11 +210,14 @@ impl Cqueue {
         }
 
         use generator::Error;
-        match self.selectors.lock().unwrap()[id]
+        // take the handle out in its own statement: the `selectors` guard must be
+        // released before we wait in `join` or re-throw the panic. Unwinding with
+        // the guard alive would poison the mutex and make `Cqueue::drop` panic
+        // again during that unwind, which aborts the process.
+        let handle = self.selectors.lock().unwrap()[id]
             .take()
-            .expect("join handler not set")
-            .join()
-        {
+            .expect("join handler not set");
+        match handle.join() {
             Ok(_) => {}
             Err(panic) => {
                 if let Some(err) = panic.downcast_ref::<Error>() {
